@@ -130,7 +130,27 @@ pub proof fn lemma_chain_bound(subs: Map<usize, usize>, i: usize)
           lemma_root_in_bounds(old(self).subs(), old(self).sets.len() as nat, id);
           assert(root(old(self).subs(), dominant_id) == dominant_id);
       }
-//@drop get_dominant_id_mut_halving add_node_new add_node add merge_multiple add_one_connection add_set_connection set_of set_of_by_set_id rev_set_of rev_set_of_by_set_id iter_all contains is_empty get_set_connections get_reverse_set_connections count_exact assert_disjoint_invariant assert_set_connections_dominant_sets
+//@fn add_node_new | r
+       requires old(self).wf_subs(), old(self).wf_ids(), obeys_key_model::<T>(), Self::clone_is_identity(), old(self).sets.len() < usize::MAX,
+       ensures final(self).wf_subs(), final(self).wf_ids(),
+               // the second component says whether x was unknown; a new element gets a fresh class of its own
+               r.1 == !old(self).ids().contains_key(x),
+               final(self).ids().contains_key(x) && r.0 == final(self).class_of(x),
+               r.1 ==> r.0 == old(self).sets.len() && final(self).sets.len() == old(self).sets.len() + 1 && final(self).ids().dom() =~= old(self).ids().dom().insert(x),
+               !r.1 ==> r.0 == old(self).class_of(x) && final(self).sets == old(self).sets,
+               // every known element keeps its class
+               forall|z: T| #[trigger] old(self).ids().contains_key(z) ==> final(self).ids().contains_key(z) && final(self).class_of(z) == old(self).class_of(z),
+               forall|i: usize| #![trigger root(final(self).subs(), i)] #![trigger root(old(self).subs(), i)] root(final(self).subs(), i) == root(old(self).subs(), i),
+//@ghost after-text self.elem_ids.insert(x.clone(), elem_id);
+            proof {
+                assert(!self.subs().contains_key(elem_id));
+                assert(root(self.subs(), elem_id) == elem_id);
+            }
+//@fn add_node | r
+       requires old(self).wf_subs(), old(self).wf_ids(), obeys_key_model::<T>(), Self::clone_is_identity(), old(self).sets.len() < usize::MAX,
+       ensures final(self).wf_subs(), final(self).wf_ids(), final(self).ids().contains_key(x) && r == final(self).class_of(x),
+               forall|z: T| #[trigger] old(self).ids().contains_key(z) ==> final(self).ids().contains_key(z) && final(self).class_of(z) == old(self).class_of(z),
+//@drop get_dominant_id_mut_halving add merge_multiple add_one_connection add_set_connection set_of set_of_by_set_id rev_set_of rev_set_of_by_set_id iter_all contains is_empty get_set_connections get_reverse_set_connections count_exact assert_disjoint_invariant assert_set_connections_dominant_sets
 //@end
 
 } // verus!
